@@ -3,7 +3,7 @@ from .. import simprop
 
 ID = "C08"
 FAMILY = "C08"
-VARIANTS = ("asan",)
+VARIANTS = ("asan", "rel")      # rel: only to re-judge a case that UBSan stopped (simprop)
 BUDGET = {"quick": dict(examples=80000, seconds=55), "thorough": dict(examples=2000000, seconds=540)}
 NONTRIVIAL = {'delivered-interrupt', 'end-with-obligations', 'wait-ended-by-timeout', 'pq-cancel'}
 PROFILES = [(4, 'wakeup'), (1, 'mixed')]
